@@ -6,6 +6,7 @@
 package main
 
 import (
+	"encoding/hex"
 	"encoding/json"
 	"flag"
 	"fmt"
@@ -70,6 +71,7 @@ func worker() {
 	c.Instr = props.InstrBuild
 	props.SetCtx(c)
 	p.Run(c)
+	bx.Cover = props.CoverageGet()
 	if err := c.WriteResult(*fOut); err != nil {
 		fmt.Fprintln(os.Stderr, "write result:", err)
 		os.Exit(2)
@@ -154,7 +156,7 @@ func drive() int {
 	}
 	self, _ := os.Executable()
 	bin := self
-	if p.Instr {
+	if p.Instr || os.Getenv("VERIF_FORCE_INSTR") != "" {
 		alt := filepath.Join(filepath.Dir(self), "vcheck-i")
 		if _, err := os.Stat(alt); err == nil {
 			bin = alt
@@ -232,6 +234,7 @@ func drive() int {
 	// merge
 	tot := &bx.Result{Prop: *fProp, Tier: tier, N: n, Counters: map[string]int64{}, Exhaustive: true}
 	fm := map[string]*bx.Finding{}
+	var cover []byte
 	harnessErr := ""
 	for i := range out {
 		if out[i].err != nil {
@@ -274,6 +277,16 @@ func drive() int {
 			}
 			if !dup {
 				tot.Notes = append(tot.Notes, nt)
+			}
+		}
+		if r.Cover != "" {
+			if hb, err := hex.DecodeString(r.Cover); err == nil {
+				if cover == nil {
+					cover = make([]byte, len(hb))
+				}
+				for k := 0; k < len(hb) && k < len(cover); k++ {
+					cover[k] |= hb[k]
+				}
 			}
 		}
 		for _, f := range r.Findings {
@@ -345,6 +358,17 @@ func drive() int {
 		"bounds":                        p.Bounds(tier),
 		"instrumented_build":            p.Instr && bin != self,
 	}
+	if cover != nil {
+		total, hit, unc := coverageSummary(cover)
+		cov["statement_points_total"] = total
+		cov["statement_points_hit"] = hit
+		if len(unc) > 80 {
+			cov["statements_not_reached"] = append(unc[:80:80], fmt.Sprintf("... and %d more", len(unc)-80))
+		} else {
+			cov["statements_not_reached"] = unc
+		}
+		cov["statement_hit_vector_hex"] = hex.EncodeToString(cover)
+	}
 	ev := map[string]interface{}{
 		"property_id": *fProp,
 		"tier":        tier,
@@ -367,6 +391,29 @@ func drive() int {
 		return 1
 	}
 	return 0
+}
+
+// coverageSummary maps the merged hit vector onto file:line using the instrumenter's table.
+func coverageSummary(cover []byte) (total, hit int, uncovered []string) {
+	var info struct {
+		Points []struct {
+			ID   int    `json:"id"`
+			File string `json:"file"`
+			Line int    `json:"line"`
+		} `json:"points"`
+	}
+	if b, err := os.ReadFile(os.Getenv("VERIF_INFO")); err == nil {
+		_ = json.Unmarshal(b, &info)
+	}
+	total = len(info.Points)
+	for _, p := range info.Points {
+		if p.ID < len(cover) && cover[p.ID] != 0 {
+			hit++
+		} else {
+			uncovered = append(uncovered, fmt.Sprintf("%s:%d", p.File, p.Line))
+		}
+	}
+	return
 }
 
 func sanitize(s string) string {
